@@ -498,9 +498,12 @@ func genConnServe(r *RNG, n int, op string, emit func(string)) {
 						b = append(b, connMsg(r, id)...)
 					}
 					if op == "faults" && r.Chance(15) { // undecodable: unknown command / short length, with trailing data
-						bad := rawHeader([]int{20, 12, 28}[r.Intn(3)], 0x80, []uint32{9999, 257}[r.Intn(2)], 0, 1, 1)
+						bad := rawHeader([]int{20, 12, 28, 32, 32}[r.Intn(5)], 0x80, []uint32{9999, 257}[r.Intn(2)], 0, 1, 1)
 						if bad[3] == 28 {
 							bad = append(bad, rawAVP(264, 0xc0, 0, 8, nil, false)...)
+						}
+						if bad[3] == 32 { // an AVP whose Length runs past the end of the (complete) message
+							bad = append(bad, rawAVP(264, 0x40, 0, 40, []byte("abcd"), false)...)
 						}
 						b = append(b, bad...)
 						b = append(b, r.Bytes(r.Intn(40))...)
